@@ -94,6 +94,10 @@ def parseEv (w : String) : Option (Nat × Bool × Int) :=
   | [i, p, s] => do pure ((← i.toNat?), p == "P", (← s.toInt?))
   | _ => none
 
+
+def parseIds (s : String) : Option (List Nat) :=
+  if s == "-" then some [] else (s.splitOn ",").mapM String.toNat?
+
 def step (st : St) (ws : List String) : St × String :=
   match ws with
   | ["reset", mx, base] =>
@@ -206,6 +210,13 @@ def step (st : St) (ws : List String) : St × String :=
   | ["srvexp", arrival, pttl] =>
     match arrival.toInt?, pttl.toInt? with
     | some a, some p => (st, toString (serverExpire a p))
+    | _, _ => (st, "bad-op")
+  | ["!close", pending, released] =>
+    -- specification: Close(err) wakes the waiters of EVERY pending entry, and only those, with the error
+    match parseIds pending, parseIds released with
+    | some p, some r =>
+      (st, if Spec.Cache.closeOk p r then "ok"
+           else s!"not-released={",".intercalate ((p.filter fun i => !r.contains i).map toString)}")
     | _, _ => (st, "bad-op")
   | _ => (st, "bad-op")
 
